@@ -132,6 +132,13 @@ def sibling(chain_id, level, tag):
     return part
 
 
+@m.memento_function(version="c1")
+def passthru(chain_id, level):
+    """Hands on, as its own result, the partition that chain(chain_id, level) returns."""
+    REC.hit("passthru", chain_id, level)
+    return chain(chain_id, level)
+
+
 # ---- functions that are passed around as argument values (C04, C11) -----------------------
 @m.memento_function(version="r1")
 def callee2(a, b=None):
